@@ -327,15 +327,28 @@ def namespaces():
     return log, mk
 
 
-def render_all(spell):
-    """-> per spelling: list over 3 namespaces of (outcome, call log)"""
+def render_all(spell, way=0):
+    """-> per spelling: list over 3 namespaces of (outcome, call log) (+ the program for the entry paths other than the
+    constructor).  way: how the template object comes to hold the source -- 0 constructor, 1 munge, 2 manage_edit, 3 / 4 the same
+    with the line ends a browser's text area submits (CR LF): every spelling is treated alike"""
     out = []
     for syn, src in spell:
         cls = front.template_class(syn)
         per = []
+        if way >= 3:
+            src = src.replace('\r\n', '\n').replace('\n', '\r\n')
         try:
-            t = cls(src)
+            if way in (0, 3):
+                t = cls(src)
+            elif way == 1:
+                t = cls('old text')
+                t.munge(src)
+            else:
+                t = cls('old text')
+                t.manage_edit(src)
             t.cook()
+            if way:
+                per.append(('prog', json.dumps(front.normalise(t._v_blocks), sort_keys=True, default=repr)))
         except Exception as e:  # noqa
             out.append([('COMPILE', type(e).__name__)])
             continue
@@ -373,7 +386,7 @@ def _one(i):
         if progs[j] != progs[0]:
             bad.append(('programs-differ', {'a': c['spellings'][0], 'b': c['spellings'][j]}))
             break
-    rs = render_all(c['spellings'])
+    rs = render_all(c['spellings'], way=i % 5 if not c.get('malformed') else (i % 3))
     for j in range(1, len(rs)):
         if rs[j] != rs[0]:
             ns = next((n for n in range(min(len(rs[j]), len(rs[0]))) if rs[j][n] != rs[0][n]), 0)
